@@ -79,7 +79,11 @@ def st4_band_integrated_saturation(
                     - radian_direction[direction_index]
                     + np.pi
                 ) % (2 * np.pi) - np.pi
-                if np.abs(mutual_angle) > integration_width_radians:
+                # Directions exactly at the edge of the integration window (e.g. +-80
+                # degrees on a 10 degree grid) are always included; without the small
+                # tolerance this is decided by rounding errors in the mutual angle, and
+                # the result is no longer invariant under rotation of the spectrum.
+                if np.abs(mutual_angle) > integration_width_radians * (1.0 + 1e-9):
                     continue
 
                 integrant += (
